@@ -21,7 +21,7 @@ func genC20(seed int64, tier string) []caseOut {
 	procs := []string{"16", "4", "2"}
 	workers, calls, trials, seeds := "16", "12", "60", 1
 	if tier == "thorough" {
-		workers, calls, trials, seeds = "32", "40", "600", 8
+		workers, calls, trials, seeds = "32", "24", "300", 3
 		procs = []string{"16", "8", "4", "2", "1"}
 	}
 	var out []caseOut
